@@ -10,7 +10,7 @@ HARN = os.path.join(VERIF, "harness")
 REPLAY = os.path.join(VERIF, "replay")
 EVID = os.path.join(VERIF, "evidence")
 NPROC = os.cpu_count() or 4
-ENV = dict(os.environ, OPENBLAS_NUM_THREADS="1", OMP_NUM_THREADS="1",
+ENV = dict(os.environ, OPENBLAS_NUM_THREADS="1", OMP_NUM_THREADS="1", MALLOC_ARENA_MAX="1",
            ASAN_OPTIONS="detect_leaks=0:abort_on_error=1:allocator_may_return_null=1",
            UBSAN_OPTIONS="halt_on_error=1:print_stacktrace=1")
 
